@@ -34,6 +34,7 @@ type HistOpts struct {
 	PITReads     bool
 	MaxPostings  int
 	Enforcement  string
+	ViaHTTP      bool // writes and reads go through the real HTTP API (v2 routes) instead of the controller chain
 	SecondLedger bool // in half of the cases a second ledger shares the bucket and receives a quarter of the writes
 }
 
@@ -227,6 +228,7 @@ func (w *World) GenScriptRequest(t *rapid.T, l *LState) TxRequest {
 func RunHistory(t *rapid.T, st *stats.Collector, o HistOpts) (*World, *LState, *HistorySummary) {
 	opts := env.Options{}
 	w := NewWorld(t, st, opts, o.Focus...)
+	w.ViaHTTP = o.ViaHTTP
 	fs := o.Features(t)
 	l := w.AddLedger("l1", "b1", fs)
 	var other *LState
